@@ -7,6 +7,7 @@ import (
 	"bufio"
 	"encoding/json"
 	"flag"
+	"fmt"
 	"os"
 )
 
@@ -78,6 +79,15 @@ func cmdReplay(args []string) {
 				}
 			}
 			now = int64(ev["now"].(float64))
+		case "sample", "select":
+			if cur == nil {
+				die(2, "step before reset")
+			}
+			t := int64(ev["now"].(float64))
+			db := 0
+			fmt.Sscanf(ev["db"].(string), "%d", &db)
+			cur.Steps = append(cur.Steps, Step{Kind: ev["ev"].(string), Db: db, Tick: t - now})
+			now = t
 		case "cmd":
 			if cur == nil {
 				die(2, "command before reset")
